@@ -379,9 +379,15 @@ def findSplitPointAt (c : SizeConfig) (text : Str) (bs : List Boundary) (targetS
 def adjustBoundaryPositions (bs : List Boundary) (offset : Nat) : List Boundary :=
   (bs.filter fun b => b.pos > offset).map fun b => { b with pos := b.pos - offset }
 
+/-- `len(rest) - len(strings.TrimLeftFunc(rest, unicode.IsSpace))`: the number of bytes of
+white space in front of `rest` -/
+def leadingSpace (rest : Str) : Nat := rest.length - (trimLeft rest).length
+
 /-- `SizeCalculator.SplitToSize`. The recursion is on the length of `remaining`; that
 Lean accepts it is the termination proof (`decreasing_by` below): every iteration that
-continues drops at least `splitPos ≥ 1` bytes. -/
+continues drops at least `splitPos ≥ 1` bytes.  The supplied boundaries are shifted by the
+split position AND the white space trimmed in front of the new remainder (fix cf372da), so
+that they keep pointing at the same place of the text. -/
 def splitToSize (c : SizeConfig) (remaining : Str) (bs : List Boundary) : List Str :=
   if remaining.length = 0 then []
   else if !isAboveMax c remaining then [remaining]
@@ -391,8 +397,9 @@ def splitToSize (c : SizeConfig) (remaining : Str) (bs : List Boundary) : List S
     else
       let chunk := trimSpace (remaining.take splitPos)
       let rest := trimSpace (remaining.drop splitPos)
-      if chunk = [] then splitToSize c rest (adjustBoundaryPositions bs splitPos)
-      else chunk :: splitToSize c rest (adjustBoundaryPositions bs splitPos)
+      let bs' := adjustBoundaryPositions bs (splitPos + leadingSpace (remaining.drop splitPos))
+      if chunk = [] then splitToSize c rest bs'
+      else chunk :: splitToSize c rest bs'
 termination_by remaining.length
 decreasing_by
   all_goals
